@@ -177,6 +177,14 @@ class Harness:
                 if l.reader.kind == '__fork__': arr[:, l.index] = 0
         if d.get('short') and nl > d['short'] + 1: arr = arr[:, :nl - int(d['short'])]
         if d.get('ndim3') and arr.shape[0] == 1: arr = arr[0]      # the documented 3-dimensional form (one dataset)
+        lay = d.get('layout', 'c')
+        if lay == 'fortran': arr = np.asfortranarray(arr)
+        elif lay == 'strided':      # a view into a larger array (every other element along the last axis): not contiguous
+            big = np.zeros(arr.shape[:-1] + (arr.shape[-1] * 2,), dtype=arr.dtype)
+            big[..., ::2] = arr
+            arr = big[..., ::2]
+        elif lay == 'readonly':
+            arr = arr.copy(); arr.flags.writeable = False
         return arr
 
     def caps(self):
@@ -192,7 +200,11 @@ class Harness:
         vec = cp['vec']
         n = nl + 3 if cp.get('plus3', True) else nl
         lst = [int(vec[l % len(vec)]) for l in range(n)]
-        return lst if cp.get('dtype', 'list') == 'list' else np.array(lst, dtype=fitting_dtype(cp['dtype'], max(lst) if lst else 0))
+        if cp.get('dtype', 'list') == 'list': return lst
+        if cp.get('dtype') == 'tuple': return tuple(lst)
+        a = np.array(lst, dtype=fitting_dtype(cp['dtype'], max(lst) if lst else 0))
+        if cp.get('readonly'): a.flags.writeable = False
+        return a
 
     def a_ctrl(self):
         ac = self.case.get('actrl')
